@@ -1,3 +1,28 @@
-From TM Require Import Base Frame.
-Theorem C15_placeholder : fc_value (fc_new 1) = 1.
-Proof. reflexivity. Qed.
+(* C15 -- disconnect shuts the transport down once and makes the client inert. *)
+From TM Require Import Base Frame Framed Client ClientProofs Histories.
+
+(* the first disconnect performs the shutdown; its result is the shutdown's, with NotConnected and
+   BrokenPipe counted as success ([first_shutdown] skips Pending polls) *)
+Theorem C15_first_disconnect : forall st, framed st = true ->
+  fst (disconnect st) = first_shutdown (sq st) /\ framed (snd (disconnect st)) = false
+  /\ shutdowns (snd (disconnect st)) = shutdowns st + 1.
+Proof. exact disconnect_first. Qed.
+
+(* disconnecting again succeeds without touching the transport *)
+Theorem C15_disconnect_again : forall st, framed st = false -> disconnect st = (DROk, st).
+Proof. exact disconnect_again. Qed.
+
+(* afterwards every call fails with NotConnected, writes nothing, reads nothing *)
+Theorem C15_inert : forall p m st req bg, framed st = false ->
+  fst (call p m st req bg) = CRTransport KNotConnected
+  /\ wio_ (snd (call p m st req bg)) = wio_ st /\ rq (snd (call p m st req bg)) = rq st
+  /\ framed (snd (call p m st req bg)) = false /\ shutdowns (snd (call p m st req bg)) = shutdowns st.
+Proof. exact call_when_disconnected. Qed.
+
+(* over every interleaving of calls, set_slave and disconnects: shutdown happens at most once, and
+   exactly once as soon as the client is disconnected *)
+Theorem C15_shutdown_exactly_once : forall p m ops st s0, conn_inv st s0 -> conn_inv (run_ops p m st ops) s0.
+Proof. exact shutdown_at_most_once. Qed.
+
+Example C15_ex : first_shutdown [SdPend; SdErr KBrokenPipe] = DROk /\ first_shutdown [SdErr (KOther 1)] = DRErr (KOther 1).
+Proof. split; reflexivity. Qed.
